@@ -117,7 +117,7 @@ func c15EndToEnd(c *Ctx, idx int) {
 		sort.Strings(want)
 		good := false
 		var got []string
-		for attempt := 0; attempt < 50 && !good; attempt++ { // the events of the merge are delivered right after the read we observed
+		for attempt := 0; attempt < 600 && !good; attempt++ { // the events of the merge are delivered right after the read we observed
 			got = got[:0]
 			plan := bed.Proxy.VerifLoadBalancer().NewQueryPlan()
 			for hst := plan.Next(); hst != nil; hst = plan.Next() {
